@@ -1,0 +1,57 @@
+//go:build verif
+
+package command
+
+// Contracts for the verification machinery in /verif (comment-only; no executable code).
+// File system ghost state: fsKind / fsData (see /verif/contracts/dep/os.gvc).
+
+//@ import "os"
+//@ import "path/filepath"
+//@ import "github.com/gardenbed/emerge/internal/generate/golang"
+
+
+//@ spec func untouchedFS() bool =
+//@   forall q string :: {fsKind[q]} {fsData[q]} old(fsKind)[q] != 0 && !isStdStream(q) ==> fsKind[q] == old(fsKind)[q] && fsData[q] == old(fsData)[q]
+
+//@ spec func packageWritten(dir string) bool = fsKind[dir] == 1
+//@   && fsKind[filepath.Join(dir, "errors.go")] == 2 && fsKind[filepath.Join(dir, "types.go")] == 2 && fsKind[filepath.Join(dir, "stack.go")] == 2
+//@   && fsKind[filepath.Join(dir, "input.go")] == 2 && fsKind[filepath.Join(dir, "lexer.go")] == 2 && fsKind[filepath.Join(dir, "parser.go")] == 2
+
+//@ func New(u ui.UI) (*Command, error)
+//@   modifies heap
+//@   ensures result1 == nil ==> result0 != nil && result0.UI == u && result0.funcs.Parse != nil && result0.funcs.Generate != nil
+
+//@ func (c *Command) PrintHelp() error
+//@   requires c != nil
+//@   modifies fsData
+//@   ensures @untouched untouchedFS()
+
+//@ func (c *Command) Run(args []string) error
+//@   requires c != nil && c.UI != nil && c.funcs.Parse != nil && c.funcs.Generate != nil
+//@   modifies heap, fsKind, fsData
+//
+// A-PARSE-FS: the specification parser reads its reader only (no file-system effect); what Generate does to the
+// file system is the contract proved for golang.Generate.
+//@   callback c.funcs.Parse ensures fsKind == old(fsKind) && fsData == old(fsData) && (result1 == nil ==> result0 != nil)
+//@   callback c.funcs.Parse ensures c != nil && c.UI != nil && c.funcs.Generate != nil && c.Out == old(c.Out) && c.Name == old(c.Name) && c.Debug == old(c.Debug)
+//@   callback c.funcs.Parse ensures c.Help == old(c.Help) && c.Version == old(c.Version)
+
+//@   callback c.funcs.Generate provides arg1 != nil
+//@   callback c.funcs.Generate provides arg1.Spec != nil
+//@   callback c.funcs.Generate provides arg1.Path == c.Out && arg1.Debug == c.Debug
+//@   callback c.funcs.Generate provides c.Name != "" ==> arg1.Spec.Name == c.Name
+//@   callback c.funcs.Generate ensures forall q string :: {fsKind[q]} {fsData[q]} old(fsKind)[q] != 0 ==> fsKind[q] == old(fsKind)[q] && fsData[q] == old(fsData)[q]
+//@   callback c.funcs.Generate ensures result == nil ==> old(fsKind)[filepath.Join(filepath.Clean(old(arg1.Path)), old(arg1.Spec.Name))] == 0
+//@     && packageWritten(filepath.Join(filepath.Clean(old(arg1.Path)), old(arg1.Spec.Name)))
+//@   callback c.funcs.Generate ensures c != nil && c.UI != nil && c.Out == old(c.Out) && c.Name == old(c.Name) && c.Help == old(c.Help) && c.Version == old(c.Version)
+//@   ensures @untouched untouchedFS()
+//@   ensures @flags-kept c.Help == old(c.Help) && c.Version == old(c.Version)
+//@   ensures @complete result == nil ==> exists name string :: (old(c.Name) != "" ==> name == old(c.Name))
+//@     && old(fsKind)[filepath.Join(filepath.Clean(old(c.Out)), name)] == 0 && packageWritten(filepath.Join(filepath.Clean(old(c.Out)), name))
+//@   ensures @parse-error lasterr(c.funcs.Parse) != nil ==> result == lasterr(c.funcs.Parse) && fsKind == old(fsKind) && fsData == old(fsData)
+//@   ensures @generate-error lasterr(c.funcs.Generate) != nil ==> result == lasterr(c.funcs.Generate)
+
+// The decorative emoji: no effect on anything but the returned rune.
+//@ func getAnimal() rune
+//@ func getPlant() rune
+//@ func getFruit() rune
